@@ -59,6 +59,8 @@ from ..core import CaseResult, Family, HarnessError, Violation, pick
 from ..engines import memwire, sftpmodel as sm
 from ..engines.memwire import asyncssh
 
+sftp_mod = asyncssh.sftp
+
 PROPERTY_ID = 'C12'
 LEVEL = 'exploration'
 RULE = ('Hypothesis-generated transfers: (block_size, max_requests) from '
@@ -73,7 +75,12 @@ RULE = ('Hypothesis-generated transfers: (block_size, max_requests) from '
         'of order, or a short read that had to be continued, or an injected '
         'error status, or an early EOF, or a hole in the source; distinct = '
         'canonical JSON of the case.')
-ASSUMPTIONS = ['model SFTP server (vf/engines/sftpmodel.py) implements '
+ASSUMPTIONS = ['real-server: for some sparse cases the harness lowers the '
+               'server\'s range-batch constant _MAX_SPARSE_RANGES (128) to 1..3 '
+               'so that continuation requests are reached with small files; '
+               'other cases use layouts with more than 256 data ranges and the '
+               'real constant',
+               'model SFTP server (vf/engines/sftpmodel.py) implements '
                'filexfer-02 READ/WRITE/STATUS semantics correctly; it '
                'executes requests in arrival order and only permutes replies '
                '(filexfer-02 6.1)',
@@ -1157,6 +1164,21 @@ def run_real(case) -> CaseResult:
                     not all(fi['pages']):
                 labels.add('holes-not-materialised')
 
+            # the server lists the data ranges of a sparse source in batches
+            # of _MAX_SPARSE_RANGES (128); a smaller batch reaches the
+            # continuation requests with small files
+            batch = case.get('ranges_batch') or 128
+            sftp_mod._MAX_SPARSE_RANGES = batch  # pylint: disable=W0212
+            nranges = len([i for i, d in enumerate(fi.get('pages') or [])
+                           if d and (i == 0 or not fi['pages'][i - 1])])
+
+            if holes and case['sparse'] and op in ('get', 'copy') and \
+                    nranges > 2 * batch:
+                labels.add('ranges-batches>=3')
+
+                if batch == 128:
+                    labels.add('ranges-batches>=3:real-batch-size')
+
             try:
                 pair.h.run(coro)
             except DOCUMENTED as exc:
@@ -1191,6 +1213,7 @@ def run_real(case) -> CaseResult:
                                     'write-parallel-path', 'copy-data'})
         return CaseResult(sorted(labels), nontrivial)
     finally:
+        sftp_mod._MAX_SPARSE_RANGES = 128        # pylint: disable=W0212
         pair.close()
         shutil.rmtree(tmp, ignore_errors=True)
 
@@ -1235,6 +1258,21 @@ def real_strategy(tier: str):
                   'tail_data': draw(st.booleans()),
                   'seed': draw(st.integers(0, 250))}
 
+            if draw(st.integers(0, 2)) == 0:
+                # many short data ranges
+                fi['pages'] = [(i + k) % 2 == 0 for k in
+                               [draw(st.integers(0, 1))]
+                               for i in range(draw(st.integers(5, 12)))]
+
+            many = draw(st.integers(0, 11 if tier == 'quick' else 7))
+
+            if many == 0 and op != 'put':
+                # more data ranges than two of the server's range batches
+                fi['pages'] = [i % 2 == 0 for i in
+                               range(draw(pick([515, 600])))]
+                bs = draw(pick([16384, -1]))
+                short = [0]
+
             if draw(st.integers(0, 3)) > 0:
                 # mostly end in data: a trailing hole runs into a recorded
                 # defect and ends the case there
@@ -1254,7 +1292,9 @@ def real_strategy(tier: str):
                     [262143, 262144, 262145, 524288, 524289, 600000]))
 
         return {'op': op, 'version': version, 'short': short, 'bs': bs,
-                'mr': mr, 'sparse': draw(st.booleans()), 'file': fi}
+                'mr': mr, 'sparse': draw(st.booleans()), 'file': fi,
+                'ranges_batch': draw(pick([None, None, 1, 2, 3]))
+                if sparse_file and len(fi['pages']) < 100 else None}
 
     return build()
 
@@ -1430,7 +1470,9 @@ FAMILIES = [
            budget={'quick': 480, 'thorough': 6000},
            required={'all': ['op-get', 'op-put', 'op-copy', 'op-file',
                              'sparse-holes', 'short-read-continued',
-                             'copy-data>256k', 'v3', 'v4', 'v5', 'v6']},
+                             'copy-data>256k', 'v3', 'v4', 'v5', 'v6',
+                             'ranges-batches>=3',
+                             'ranges-batches>=3:real-batch-size']},
            timeout_is_violation=True, case_timeout=120),
     Family('openssh-sftp', run_openssh, strategy=openssh_strategy,
            budget={'quick': 40, 'thorough': 240},
